@@ -23,7 +23,18 @@ RULE = ("Hypothesis draws a prescription of 1..3 surfaces (plane / sphere / coni
         "verified, previous output; the same reference step decides whether it is inside the quantifier there (rays that are "
         "not are followed no further, counted).  Separate clauses call reflect / refract directly with "
         "normals of arbitrary length and sense and check the frame transforms as rigid motions.  Non-trivial = at "
-        "least one ray meets a curved or tilted surface off its vertex, or the exactly on-axis ray is present.")
+        "least one ray meets a curved or tilted surface off its vertex, or the exactly on-axis ray is present.  "
+        "Input classes drawn on top of that: every constructor with every optional argument - P as list / tuple / ndarray / whole-number "
+        "ints / bare z / [y, z]; R as None / tuple / list of zyx angles / the matrix; typ as 'refl' / 'reflect' / other case / STYPE "
+        "constant; n given, None, left out, or a callable on a mirror; keyword instead of positional arguments; the Surface built "
+        "elsewhere and re-pointed through its public attributes typ / P / R / n; off-axis conics through dy (positional) and dx; Q-type "
+        "surfaces on a base conic shifted through the dx / dy arguments of Q2d_and_der; curvatures from 1e-6 to 10 (the bundle scales "
+        "with the surface) and c = 0, k = -1, 0; 'eval' (non-bending) surfaces inside prescriptions.  P and S handed to raytrace as "
+        "float64 arrays (C / Fortran-ordered / strided views), float32 arrays (tolerances 2e-5), nested lists, and - clause "
+        "trace_argtypes: rays with whole-number origins and direction (0, 0, +-1), as the raytrace docstring writes them - lists of "
+        "Python ints, int64 / int32 arrays and float / int mixtures (histories must be of a floating dtype).  P and S are compared with "
+        "copies after every call; the histories of a warm-up trace and of the first trace are compared with copies after the same "
+        "Surface objects have been traced again (reversed bundle, itself verified step by step); surf.P / R / typ unchanged by tracing.")
 ASSUMPTIONS = [
     "a surface placed with (P, R) is the set {P + R^T (x, y, sag(x,y))}, i.e. local = R (X - P) as documented in "
     "transform_to_local_coords; R is whatever Surface(...) stores (checked orthonormal, det +1)",
@@ -41,6 +52,13 @@ ASSUMPTIONS = [
     "the intersection is ill-conditioned there",
     "implicit precondition of the Spencer & Murty procedure: the point where the ray crosses the surface's local z = 0 "
     "plane (start of Newton's iteration) lies inside the real-sag region as well (rays violating it are removed, counted)",
+    "raytrace documents a surface by the attributes typ / P / R / n (and uses sag_normal): assigning them on a built Surface "
+    "(typ an STYPE constant, P a float64 vector, R a matrix or None, n a callable) is a valid way to place it",
+    "P and S 'of any float dtype' are also accepted as what np.asarray makes of lists; whole-number rays written as Python ints "
+    "(the docstring's own example) are inside the domain, and their histories must hold real numbers",
+    "an 'eval' surface does not bend the ray and does not change the medium: point on the ray and on the sag, S' = S",
+    "float32 rays: the trace runs in float64 against float64 surfaces and the histories are stored in float32; every tolerance is "
+    "2e-5 (positions relative to the scale of the system), origins 'at infinity' are not given in float32",
 ]
 
 POS_TOL = 1e-9      # * scale (observed <= 1e-14)
@@ -88,10 +106,19 @@ class Model:
             else:
                 self.sy = s
         self.q = spec.get('q') if self.kind in ('qsym', 'q2d') else None
+        if self.q is not None and spec.get('qoff') is not None:
+            # Q-type departure on a base conic shifted through Q2d_and_der's dx / dy arguments (an off-axis section)
+            axis, f = spec['qoff']
+            s = f * 0.5 * self.lim
+            if axis == 'x':
+                self.sx = s
+            else:
+                self.sy = s
         self.ffp = None          # prysm-side FFp for the Q kinds (sag is defined by it)
         self.rho_max = 0.5 * self.lim
         self.curved = self.c != 0 or self.q is not None
-        self.symmetric_about_origin = self.kind in ('plane', 'sphere', 'conic', 'qsym')
+        self.shifted = self.sx != 0 or self.sy != 0
+        self.symmetric_about_origin = self.kind in ('plane', 'sphere', 'conic') or (self.kind == 'qsym' and not self.shifted)
 
     # -- conicoid part (closed forms)
     def _phi(self, x, y):
@@ -216,6 +243,8 @@ def ref_step(mdl, typ, n_in, n_out, P0, S0):
     valid &= np.abs(ci / nrm[:, 2]) >= MIN_FPRIME
     if typ == 'refl':
         S1 = S0 - 2 * ci[:, None] * nrm
+    elif typ == 'eval':
+        S1 = S0
     else:
         mu = n_in / n_out
         si = np.sqrt(np.clip(1 - ci * ci, 0, None))
@@ -232,12 +261,17 @@ def q_ffp(mdl):
     cm0, ams, bms, nr = q['cm0'], q['ams'], q['bms'], float(q['nr'])
     c, k = mdl.c, mdl.k
 
-    symmetric = mdl.kind == 'qsym'
+    symmetric = mdl.kind == 'qsym' and not mdl.shifted
+    shift = {}
+    if mdl.sx != 0:
+        shift['dx'] = mdl.sx
+    if mdl.sy != 0:
+        shift['dy'] = mdl.sy
 
     def FFp(x, y):
         x = np.asarray(x, dtype=float)
         y = np.asarray(y, dtype=float)
-        z, zr, zt = Q2d_and_der(cm0, ams, bms, x[:, None], y[:, None], nr, c, k)
+        z, zr, zt = Q2d_and_der(cm0, ams, bms, x[:, None], y[:, None], nr, c, k, **shift)
         r = np.hypot(x, y)
         t = np.arctan2(y, x)
         if symmetric:
@@ -249,28 +283,118 @@ def q_ffp(mdl):
     return FFp
 
 
-def build(ctx, spec, mdl):
-    from prysm.x.raytracing.surfaces import Surface
+TYP_FORMS = {'refl': {'short': 'refl', 'long': 'reflect', 'upper': 'REFL'}, 'refr': {'short': 'refr', 'long': 'refract', 'upper': 'Refract'},
+             'eval': {'short': 'eval', 'long': 'eval', 'upper': 'EVAL'}}
+
+
+def _stype(typ):
+    from prysm.x.raytracing import surfaces as sf
+    return {'refl': sf.STYPE_REFLECT, 'refr': sf.STYPE_REFRACT, 'eval': sf.STYPE_EVAL}[typ]
+
+
+def ctor_args(ctx, spec, away=False):
+    """(typ, P, n, R) as handed to a Surface constructor, in the forms the case asks for (spec['ctor']):
+    P  list | tuple | ndarray | whole-number list of ints | the bare z (x = y = 0) | [y, z] (x = 0), as in the tutorials
+    R  None | tuple | list of zyx angles | the rotation matrix itself (from prysm.coordinates.make_rotation_matrix)
+    typ 'refl' / 'reflect' / any case | the integer STYPE constant
+    n  callable for refracting surfaces; for mirrors None, left out, or a callable that must not matter
+    away=True: another valid position / tilt / type / index (the object is then re-pointed through its public attributes)"""
+    from prysm.coordinates import make_rotation_matrix
+    ct = spec.get('ctor') or {}
     typ = spec['typ']
     n1 = float(spec['n'])
     # dispersive index: exactly n1 at the wavelength the checked trace uses (0.6328), all indices scaled by the same factor
     # elsewhere (so that no ray is pushed past the critical angle by a warm-up trace at another wavelength)
-    nfun = (lambda wvl, _n=n1: _n * (1.0 + 0.02 * (0.6328 - wvl) / 0.6328)) if typ == 'refr' else None
+    nfun = (lambda wvl, _n=n1: _n * (1.0 + 0.02 * (0.6328 - wvl) / 0.6328))
     P = [float(v) for v in spec['P']]
-    R = None if spec.get('R') is None else tuple(float(v) for v in spec['R'])
+    R = None if spec.get('R') is None else [float(v) for v in spec['R']]
+    if away:
+        typ = 'refr' if typ == 'refl' else 'refl'
+        nfun = (lambda wvl, _n=n1: 1.0 + 0.5 * _n)
+        P = [P[0] - 1.5, P[1] + 0.7, P[2] + 3.0]
+        R = [12.0, -3.0, 4.0] if R is None else None
+    pf = ct.get('P', 'list')
+    if pf == 'int' and all(v == round(v) for v in P):
+        Parg = [int(v) for v in P]
+    elif pf == 'scalar-z' and P[0] == 0 and P[1] == 0:
+        Parg = P[2]
+    elif pf == 'yz' and P[0] == 0:
+        Parg = P[1:]
+    elif pf == 'tuple':
+        Parg = tuple(P)
+    elif pf == 'ndarray':
+        Parg = np.array(P)
+    else:
+        Parg = list(P)
+    rf = ct.get('R', 'tuple')
+    if R is None:
+        Rarg = None
+    elif rf == 'list':
+        Rarg = list(R)
+    elif rf == 'matrix':
+        Rarg = np.asarray(ctx.call(make_rotation_matrix, tuple(R)))
+    else:
+        Rarg = tuple(R)
+    tf = ct.get('typ', 'short')
+    targ = _stype(typ) if tf == 'int' else TYP_FORMS[typ][tf]
+    nf = ct.get('n', 'none')
+    if typ == 'refr':
+        narg = nfun
+    else:
+        narg = nfun if nf == 'callable' else None
+    return targ, Parg, narg, Rarg, (nf == 'omit' and typ != 'refr')
+
+
+def build(ctx, spec, mdl):
+    from prysm.x.raytracing.surfaces import Surface
+    ct = spec.get('ctor') or {}
+    reassign = bool(ct.get('reassign', False))
+    typ, P, n, R, omit_n = ctor_args(ctx, spec, away=reassign)
+    given = (_copy_arg(P), _copy_arg(R))
+    kw = {} if omit_n else {'n': n}
     kind = mdl.kind
     if kind == 'plane':
-        s = ctx.call(Surface.plane, typ, P, n=nfun, R=R)
+        s = ctx.call(Surface.plane, typ, P, R=R, **kw)
     elif kind == 'sphere':
-        s = ctx.call(Surface.sphere, mdl.c, typ, P, nfun, R=R)
+        s = ctx.call(Surface.sphere, mdl.c, typ, P, n, R=R) if not ct.get('kw', False) else ctx.call(Surface.sphere, c=mdl.c, typ=typ, P=P, n=n, R=R)
     elif kind == 'conic':
-        s = ctx.call(Surface.conic, mdl.c, mdl.k, typ, P, n=nfun, R=R)
+        s = ctx.call(Surface.conic, mdl.c, mdl.k, typ, P, R=R, **kw) if not ct.get('kw', False) else ctx.call(Surface.conic, c=mdl.c, k=mdl.k, typ=typ, P=P, R=R, **kw)
     elif kind == 'offaxis':
-        s = ctx.call(Surface.off_axis_conic, mdl.c, mdl.k, typ, P, dy=mdl.sy, dx=mdl.sx, n=nfun, R=R)
+        # dy is the positional argument, dx the optional one; one of them is zero
+        if mdl.sx == 0 and not ct.get('kw', False):
+            s = ctx.call(Surface.off_axis_conic, mdl.c, mdl.k, typ, P, mdl.sy, R=R, **kw)
+        else:
+            s = ctx.call(Surface.off_axis_conic, mdl.c, mdl.k, typ, P, dy=mdl.sy, dx=mdl.sx, R=R, **kw)
     else:
         mdl.ffp = q_ffp(mdl)
-        s = ctx.call(Surface, typ, P, nfun, mdl.ffp, R=R)
+        s = ctx.call(Surface, typ, P, n, mdl.ffp, R=R)
+    ctx.require(_same_arg(given[0], P) and _same_arg(given[1], R), 'surface:argument-modified', 'Surface constructor changed its P / R argument: %r -> %r' % (given, (P, R)))
+    if reassign:
+        # a Surface is, for raytrace(), the attributes typ / P / R / n it documents: point the object built elsewhere at the
+        # position, tilt, type and index of the case through them
+        typ2, P2, n2, R2, _ = ctor_args(ctx, dict(spec, ctor={}))
+        from prysm.coordinates import make_rotation_matrix
+        s.typ = _stype(spec['typ'])
+        s.P = np.array(P2, dtype=np.float64)
+        s.R = None if R2 is None else np.asarray(ctx.call(make_rotation_matrix, R2))
+        s.n = n2
     return s
+
+
+def _copy_arg(a):
+    if isinstance(a, np.ndarray):
+        return a.copy()
+    if isinstance(a, (list, tuple)):
+        return type(a)(_copy_arg(v) for v in a)
+    return a
+
+
+def _same_arg(before, after):
+    if isinstance(before, np.ndarray):
+        return isinstance(after, np.ndarray) and before.dtype == after.dtype and before.shape == after.shape and np.array_equal(before, after)
+    if isinstance(before, (list, tuple)):
+        return type(before) is type(after) and len(before) == len(after) and all(_same_arg(p, q) for p, q in zip(before, after))
+    return type(before) is type(after) and before == after
 
 
 def check_frame(ctx, surf, spec):
@@ -290,7 +414,7 @@ def check_frame(ctx, surf, spec):
 
 
 # ---- rays --------------------------------------------------------------------------------------------------------
-def make_rays(case, mdl0):
+def make_rays(case, mdl0, collimated=None):
     """rays in the local frame of the first surface: aim point (x, y, 0) and direction; origin d behind it."""
     dirz = case['dirz']
     d = float(case['d'])
@@ -303,7 +427,7 @@ def make_rays(case, mdl0):
             f = 0
         elif cls == 'meridional':
             taz = az
-        if mdl0.kind == 'q2d':
+        if mdl0.kind == 'q2d' or (mdl0.q is not None and mdl0.shifted):
             # the freeform's local origin is not on an axis of symmetry and surface_normal_from_cylindrical_derivatives
             # is documented to be singular at r = 0 (see fix_zero_singularity): never aim at the exact origin
             f = max(f, 1)
@@ -317,7 +441,7 @@ def make_rays(case, mdl0):
             rows.append((float(ff[i]), float(r.uniform(0, 360)), float(r.uniform(0, 30)), float(r.uniform(0, 360))))
             classes.append('random')
     a = np.asarray(rows, dtype=float).reshape(-1, 4)
-    if d >= 1e50:
+    if d >= 1e50 if collimated is None else collimated:
         a[:, 2] = 0.0     # a bundle 'from infinity' is collimated along the axis, as the raytrace docstring describes it
     rho = a[:, 0] * mdl0.rho_max
     az = np.radians(a[:, 1])
@@ -339,10 +463,78 @@ def near_origins(case, mdl0):
     infinity' (d = 1e7 ... 1e99, which the raytrace docstring documents as valid)."""
     c2 = dict(case)
     c2['d'] = min(float(case['d']), 50.0)
-    return make_rays(c2, mdl0)[0]
+    # the same lines: a bundle from 1e99 is collimated (see make_rays), its nearer stand-in must be too
+    return make_rays(c2, mdl0, collimated=float(case['d']) >= 1e50)[0]
 
 
 # ---- the step-by-step check ----------------------------------------------------------------------------------------
+class Tol:
+    """tolerances of one trace: float64 inputs, or float32 inputs (the histories are then float32 too)"""
+
+    def __init__(self, f32=False):
+        self.f32 = f32
+        self.gscale = 0.0       # float32: size of the global coordinates the float32 histories were rounded at
+        self.pos = 5e-5 if f32 else POS_TOL
+        self.unit = 1e-5 if f32 else UNIT_TOL
+        self.law = 2e-5 if f32 else LAW_TOL
+        self.lawq = 5e-5 if f32 else LAW_TOL_Q
+
+
+RAY_FORMS = ['f64', 'f64', 'f64', 'F', 'strided', 'list', 'f32']
+INT_RAY_FORMS = ['int-list', 'int-list', 'int64', 'int32', 'P-float-S-int', 'P-int-S-float', 'f64', 'f32', 'list']
+
+
+def ray_args(Pg, Sg, form, single):
+    """(P, S) as handed to raytrace(), and the float64 values they represent.  Forms: float64 arrays (C / Fortran ordered /
+    strided views), float32 arrays, nested lists of floats, and - for rays with whole-number origins and an axis-parallel
+    direction, written the way the raytrace docstring writes them, P = [Px, Py, -10], S = [0, 0, 1] - lists of Python ints,
+    integer arrays, or a mixture of a float P with an integer S and vice versa."""
+    def one(A, f):
+        if single:
+            A = A[0]
+        if f == 'f32':
+            return A.astype(np.float32)
+        if f in ('F', 'strided'):
+            return U.relayout(A, f)
+        if f == 'list':
+            return A.tolist()
+        if f == 'int-list':
+            return np.rint(A).astype(np.int64).tolist()
+        if f in ('int64', 'int32'):
+            return np.rint(A).astype(np.int64 if f == 'int64' else np.int32)
+        return A.copy()
+    fP, fS = {'P-float-S-int': ('list', 'int-list'), 'P-int-S-float': ('int64', 'f64')}.get(form, (form, form))
+    P, S = one(Pg, fP), one(Sg, fS)
+    return P, S, np.asarray(P, dtype=np.float64).reshape(-1, 3), np.asarray(S, dtype=np.float64).reshape(-1, 3)
+
+
+def traced(ctx, sm, surfs, P, S, wvl, n_amb, nsurf, single, nrays, what):
+    """one raytrace() call: arguments unchanged, histories of the documented shape and of a floating dtype"""
+    keepP, keepS = _copy_arg(P), _copy_arg(S)
+    ph, sh = ctx.call(sm.raytrace, surfs, P, S, wvl, n_amb)
+    ctx.require(_same_arg(keepP, P) and _same_arg(keepS, S), 'raytrace:argument-modified', '%s: raytrace changed the P / S it was given' % what)
+    ph, sh = np.asarray(ph), np.asarray(sh)
+    shape = (nsurf + 1, 3) if single else (nsurf + 1, nrays, 3)
+    U.check_shape(ph, shape, 'raytrace:history')
+    U.check_shape(sh, shape, 'raytrace:history')
+    for nm, h, src in (('P_hist', ph, P), ('S_hist', sh, S)):
+        ctx.require(h.dtype.kind == 'f', 'raytrace:history-dtype:integer-input',
+                    '%s: %s has dtype %s for P of %s and S of %s: positions / direction cosines after the first surface are truncated to whole numbers '
+                    '(last row %s)' % (what, nm, h.dtype, _describe(P), _describe(S), _fmt(h.reshape(nsurf + 1, -1, 3)[-1][0])))
+    if single:
+        ph, sh = ph[:, None, :], sh[:, None, :]
+    return ph, sh
+
+
+def _describe(a):
+    if isinstance(a, np.ndarray):
+        return '%s array' % a.dtype
+    flat = a
+    while isinstance(flat, list) and flat:
+        flat = flat[0]
+    return 'list of Python %ss' % type(flat).__name__
+
+
 def check_trace(case, ctx):
     """raytrace() through 1..3 surfaces: every step keeps the ray on its line and on the sag, |S'|=1, law of reflection / vector Snell law."""
     from prysm.x.raytracing import spencer_and_murty as sm
@@ -350,24 +542,42 @@ def check_trace(case, ctx):
     mdls = [Model(s) for s in specs]
     surfs = [build(ctx, s, m) for s, m in zip(specs, mdls)]
     frames = [check_frame(ctx, sf, s) for sf, s in zip(surfs, specs)]
+    state = [(np.array(sf.P, copy=True), None if sf.R is None else np.array(sf.R, copy=True), sf.typ) for sf in surfs]
     n_amb = float(case['n_ambient'])
+    form = case.get('pform', 'f64')
+    whole = case.get('irays') is not None
 
     if float(case['d']) >= 1e50 and specs[0].get('R') is not None:
         # with a tilted first surface the rotation of a 1e99-long lever arm is meaningless in floating point; the 'from
         # infinity' launch of the docstring is exercised on untilted first surfaces, tilted ones get a merely very distant origin
         case = dict(case)
         case['d'] = 1e10
-    P0l, S0l, classes = make_rays(case, mdls[0])
-    # to global coordinates (harness arithmetic)
-    Pg, Sg = frame_to_global(P0l, S0l, *frames[0])
-    # reference step at the first surface: drop rays outside the quantifier before prysm sees them
+    far = float(case['d']) > 1e4 and not whole
+    if form == 'f32' and (far or any(abs(m.c) > 0.05 for m in mdls)):
+        # an origin at 1e7 .. 1e99 has no useful float32 representation; on a strongly curved surface the float32 rounding
+        # of the stored hit point turns the normal by |c| x rounding, which would need a curvature-dependent law tolerance
+        form = 'f64'
     mdl, spec, (P, R) = mdls[0], specs[0], frames[0]
-    Pl, Sl = frame_to_local(Pg, Sg, P, R)
-    far = float(case['d']) > 1e4
-    if far:
-        ctx.label('origin-far:%g' % float(case['d']))
-        Pl = near_origins(case, mdls[0])        # same lines, nearer origins, in the local frame of the first surface
-        Sl = S0l
+    if whole:
+        # rays given in global coordinates: whole-number origins around the first surface, direction along +-z
+        ir = np.asarray(case['irays'], dtype=np.float64).reshape(-1, 2)
+        z0 = float(round(spec['P'][2] - case['dirz'] * float(case['d'])))
+        Pg = np.column_stack([ir[:, 0] + round(spec['P'][0]), ir[:, 1] + round(spec['P'][1]), np.full(len(ir), z0)])
+        Sg = np.tile(np.array([0.0, 0.0, float(case['dirz'])]), (len(ir), 1))
+        classes = ['whole-number-origin'] * len(ir)
+        Pl, Sl = frame_to_local(Pg, Sg, P, R)
+    else:
+        P0l, S0l, classes = make_rays(case, mdls[0])
+        # to global coordinates (harness arithmetic)
+        Pg, Sg = frame_to_global(P0l, S0l, *frames[0])
+        if form == 'f32':
+            Pg, Sg = Pg.astype(np.float32).astype(np.float64), Sg.astype(np.float32).astype(np.float64)
+        # reference step at the first surface: drop rays outside the quantifier before prysm sees them
+        Pl, Sl = frame_to_local(Pg, Sg, P, R)
+        if far:
+            ctx.label('origin-far:%g' % float(case['d']))
+            Pl = near_origins(case, mdls[0])        # same lines, nearer origins, in the local frame of the first surface
+            Sl = S0l
     n_out0 = float(spec['n']) if spec['typ'] == 'refr' else n_amb
     _, _, keep = ref_step(mdl, spec['typ'], n_amb, n_out0, Pl, Sl)
     ctx.tally('rays_generated', len(keep))
@@ -380,36 +590,59 @@ def check_trace(case, ctx):
     if single:
         Pg, Sg, classes = Pg[:1], Sg[:1], classes[:1]
     ctx.tally('rays_traced', len(Pg))
-    ctx.label('nsurf:%d' % len(specs), 'form:' + case['form'], 'dirz:%+d' % case['dirz'],
-              *('kind:' + m.kind for m in mdls), *('typ:' + s['typ'] for s in specs),
+    ctx.label('nsurf:%d' % len(specs), 'form:' + case['form'], 'dirz:%+d' % case['dirz'], 'rays-as:' + form,
+              *('kind:' + m.kind + (':shifted-base' if m.q is not None and m.shifted else '') for m in mdls), *('typ:' + s['typ'] for s in specs),
               *('R:' + ('none' if s.get('R') is None else 'z-only' if s['R'][1] == 0 and s['R'][2] == 0 else 'general') for s in specs),
-              *set('ray:' + c for c in classes))
+              *set('ray:' + c for c in classes),
+              *set('ctor:%s=%s' % (k, v) for s in specs for k, v in (s.get('ctor') or {}).items()),
+              *set('c:' + ('0' if m.c == 0 else '<1e-3' if abs(m.c) < 1e-3 else '<=0.05' if abs(m.c) <= 0.05 else '>0.05') for m in mdls if m.kind != 'plane'),
+              *set('k:' + ('-1' if m.k == -1 else '0' if m.k == 0 else '<-1' if m.k < -1 else 'other') for m in mdls if m.kind not in ('plane', 'sphere')))
+    tol = Tol(form == 'f32')
+    Parg, Sarg, Pv, Sv = ray_args(Pg, Sg, form, single)
+    nsurf = len(specs)
 
+    warm = None
     if case.get('warmup', False):
         # the same Surface objects traced first at another wavelength: the indices are dispersive (see build), and the
         # trace that is checked below must use n(0.6328), not anything remembered from the earlier wavelength
         ctx.label('retrace-after-other-wavelength')
-        ctx.call(sm.raytrace, surfs, Pg.copy(), Sg.copy(), 0.5, n_amb)
-    if single:
-        ph, sh = ctx.call(sm.raytrace, surfs, Pg[0].copy(), Sg[0].copy(), 0.6328, n_amb)
-        ph = np.asarray(ph)
-        sh = np.asarray(sh)
-        U.check_shape(ph, (len(specs) + 1, 3), 'raytrace:history')
-        U.check_shape(sh, (len(specs) + 1, 3), 'raytrace:history')
-        ph = ph[:, None, :]
-        sh = sh[:, None, :]
-    else:
-        ph, sh = ctx.call(sm.raytrace, surfs, Pg.copy(), Sg.copy(), 0.6328, n_amb)
-        ph = np.asarray(ph)
-        sh = np.asarray(sh)
-        U.check_shape(ph, (len(specs) + 1,) + Pg.shape, 'raytrace:history')
-        U.check_shape(sh, (len(specs) + 1,) + Pg.shape, 'raytrace:history')
-    U.check_equal(ph[0], Pg, 'raytrace:history0', 'P_hist[0] is not the input position')
-    U.check_equal(sh[0], Sg, 'raytrace:history0', 'S_hist[0] is not the input direction')
+        warm = ctx.call(sm.raytrace, surfs, Pg.copy(), Sg.copy(), 0.5, n_amb)
+        warm = [np.asarray(w) for w in warm]
+        warm_kept = [w.copy() for w in warm]
+    ph, sh = traced(ctx, sm, surfs, Parg, Sarg, 0.6328, n_amb, nsurf, single, len(Pg), 'trace')
+    U.check_equal(ph[0].astype(np.float64), Pv, 'raytrace:history0', 'P_hist[0] is not the input position')
+    U.check_equal(sh[0].astype(np.float64), Sv, 'raytrace:history0', 'S_hist[0] is not the input direction')
+    if warm is not None:
+        ctx.require(all(np.array_equal(w, k, equal_nan=True) for w, k in zip(warm, warm_kept)), 'raytrace:result-overwritten',
+                    'the histories returned by an earlier raytrace() of the same surfaces changed during this one')
+    kept = (ph.copy(), sh.copy())
+    nontrivial = verify_history(ctx, ph.astype(np.float64), sh.astype(np.float64), mdls, specs, frames, n_amb, tol, 'first-trace')
 
+    if case.get('retrace', False):
+        # the same Surface objects used again with other arguments: the bundle in reverse order (single ray: the same ray
+        # again); what the first call returned must stay what it was, and the second history must obey the laws as well
+        ctx.label('same-surfaces-traced-twice')
+        P2, S2 = Pg[::-1], Sg[::-1]
+        Parg2, Sarg2, Pv2, Sv2 = ray_args(P2, S2, form, single)
+        ph2, sh2 = traced(ctx, sm, surfs, Parg2, Sarg2, 0.6328, n_amb, nsurf, single, len(P2), 'second trace')
+        ctx.require(np.array_equal(ph, kept[0], equal_nan=True) and np.array_equal(sh, kept[1], equal_nan=True), 'raytrace:result-overwritten',
+                    'the histories returned by the first raytrace() changed when the same surfaces were traced again')
+        U.check_equal(ph2[0].astype(np.float64), Pv2, 'raytrace:history0', 'second trace: P_hist[0] is not the input position')
+        verify_history(ctx, ph2.astype(np.float64), sh2.astype(np.float64), mdls, specs, frames, n_amb, tol, 'second-trace')
+    for j, (sf, (P_, R_, t_)) in enumerate(zip(surfs, state)):
+        same = np.array_equal(np.asarray(sf.P), P_) and ((sf.R is None) == (R_ is None)) and (R_ is None or np.array_equal(np.asarray(sf.R), R_)) and sf.typ == t_
+        ctx.require(same, 'surface:modified-by-trace', 'surface %d: P / R / typ changed while tracing (P %r -> %r)' % (j, P_.tolist(), np.asarray(sf.P).tolist()))
+    ctx.nt(nontrivial)
+
+
+def verify_history(ctx, ph, sh, mdls, specs, frames, n_amb, tol, which):
+    """step through a (verified so far) history; returns the non-triviality flag"""
     nj = n_amb
     nontrivial = False
-    active = np.ones(len(Pg), dtype=bool)
+    active = np.ones(ph.shape[1], dtype=bool)
+    if tol.f32:
+        fin = np.isfinite(ph)
+        tol.gscale = float(np.abs(np.where(fin, ph, 0.0)).max())
     for j, (mdl, spec, (P, R)) in enumerate(zip(mdls, specs, frames)):
         typ = spec['typ']
         n_out = float(spec['n']) if typ == 'refr' else nj
@@ -433,21 +666,22 @@ def check_trace(case, ctx):
             nontrivial = True
         elif onaxis.any():
             ctx.label('exact-through-local-origin:' + mdl.kind)
-        check_step(ctx, mdl, typ, nj, n_out, Pin, Sin, Pout, Sout, j, spec, onaxis)
+        check_step(ctx, mdl, typ, nj, n_out, Pin, Sin, Pout, Sout, j, spec, onaxis, tol)
         offv = np.hypot(Pout[:, 0], Pout[:, 1]) > 1e-3
         if (mdl.curved and offv.any()) or R is not None:
             nontrivial = True
         nj = n_out
-    ctx.nt(nontrivial)
+    return nontrivial
 
 
 def _fmt(v):
     return '[' + ', '.join('%.12g' % x for x in np.asarray(v).ravel()) + ']'
 
 
-def check_step(ctx, mdl, typ, n_in, n_out, P0, S0, P1, S1, j, spec, onaxis):
+def check_step(ctx, mdl, typ, n_in, n_out, P0, S0, P1, S1, j, spec, onaxis, tol=None):
+    tol = tol or Tol()
     where = 'surface %d (%s %s c=%g k=%g off=(%g,%g) n=%g->%g)' % (j, mdl.kind, typ, mdl.c, mdl.k, mdl.sx, mdl.sy, n_in, n_out)
-    L = max(1.0, float(np.max(np.abs(P0))))
+    L = max(1.0, float(np.max(np.abs(P0))), tol.gscale)
     fin = np.isfinite(P1).all(axis=1) & np.isfinite(S1).all(axis=1)
     if not fin.all():
         i = int(np.argmin(fin))
@@ -459,7 +693,7 @@ def check_step(ctx, mdl, typ, n_in, n_out, P0, S0, P1, S1, j, spec, onaxis):
     dvec = P1 - P0
     off = np.linalg.norm(np.cross(dvec, S0), axis=1)
     i = int(np.argmax(off))
-    ctx.require(off[i] <= POS_TOL * L * 10, 'intersect:off-ray',
+    ctx.require(off[i] <= tol.pos * L * 10, 'intersect:off-ray',
                 '%s: intersection %s is %.3g away from the ray P=%s S=%s' % (where, _fmt(P1[i]), off[i], _fmt(P0[i]), _fmt(S0[i])))
     # on the surface
     with np.errstate(all='ignore'):
@@ -467,17 +701,23 @@ def check_step(ctx, mdl, typ, n_in, n_out, P0, S0, P1, S1, j, spec, onaxis):
     e = np.abs(P1[:, 2] - z)
     e = np.where(np.isfinite(e), e, np.inf)
     i = int(np.argmax(e))
-    Ls = max(1.0, float(np.max(np.abs(P1))))      # scale of the surface, whatever the distance of the ray origin
-    ctx.require(e[i] <= POS_TOL * Ls, 'intersect:off-surface',
-                '%s: intersection %s has z - sag = %.3g (tol %.3g) for ray P=%s S=%s' % (where, _fmt(P1[i]), e[i], POS_TOL * Ls, _fmt(P0[i]), _fmt(S0[i])))
+    Ls = max(1.0, float(np.max(np.abs(P1))), tol.gscale)      # scale of the surface, whatever the distance of the ray origin
+    ctx.require(e[i] <= tol.pos * Ls, 'intersect:off-surface',
+                '%s: intersection %s has z - sag = %.3g (tol %.3g) for ray P=%s S=%s' % (where, _fmt(P1[i]), e[i], tol.pos * Ls, _fmt(P0[i]), _fmt(S0[i])))
+    if typ == 'eval':
+        # a surface that does not bend rays: the direction is the incident one
+        err = np.abs(S1 - S0).max(axis=1)
+        i = int(np.argmax(err))
+        ctx.require(err[i] <= tol.unit * 10, 'eval:direction-changed', '%s: S=%s leaves as S\'=%s' % (where, _fmt(S0[i]), _fmt(S1[i])))
+        return
     nrm = mdl.normal(P1[:, 0], P1[:, 1])
     ci = dot(S0, nrm)
-    lawtol = LAW_TOL_Q if mdl.q is not None else LAW_TOL
+    lawtol = tol.lawq if mdl.q is not None else tol.law
     qsuf = ':qtype-normal' if mdl.q is not None else ''
     norm = np.linalg.norm(S1, axis=1)
     if typ == 'refl':
         i = int(np.argmax(np.abs(norm - 1)))
-        ctx.require(abs(norm[i] - 1) <= UNIT_TOL, 'reflect:not-unit', '%s: |S\'| = %.15g for ray P=%s S=%s' % (where, norm[i], _fmt(P0[i]), _fmt(S0[i])))
+        ctx.require(abs(norm[i] - 1) <= tol.unit, 'reflect:not-unit', '%s: |S\'| = %.15g for ray P=%s S=%s' % (where, norm[i], _fmt(P0[i]), _fmt(S0[i])))
         want = S0 - 2 * ci[:, None] * nrm
         err = np.abs(S1 - want).max(axis=1)
         i = int(np.argmax(err))
@@ -493,7 +733,7 @@ def check_step(ctx, mdl, typ, n_in, n_out, P0, S0, P1, S1, j, spec, onaxis):
                  '%s: incident S=%s (S.n=%.6g) leaves as S\'=%s (S\'.n=%.6g): not transmitted to the far side' % (
                      where, _fmt(S0[i]), ci[i], _fmt(S1[i]), co[i]))
     i = int(np.argmax(np.abs(norm - 1)))
-    ctx.require(abs(norm[i] - 1) <= UNIT_TOL, 'refract:not-unit',
+    ctx.require(abs(norm[i] - 1) <= tol.unit, 'refract:not-unit',
                 '%s: |S\'| = %.15g for ray P=%s S=%s hitting at %s, |gradient normal| = %.6g' % (
                     where, norm[i], _fmt(P0[i]), _fmt(S0[i]), _fmt(P1[i]),
                     float(np.sqrt(1 + sum(g[i] ** 2 for g in mdl.grad(P1[:, 0], P1[:, 1]))))))
@@ -538,19 +778,51 @@ def q_s(sym):
         'ams': st.lists(vec, min_size=m, max_size=m), 'bms': st.lists(vec, min_size=m, max_size=m)}))
 
 
-def surface_s(kinds, maxtilt, zpos):
+def ctor_s():
+    """how the Surface is built: the form of P / R / typ / n, keyword instead of positional arguments, and the object
+    built elsewhere then re-pointed through its public attributes"""
+    return st.fixed_dictionaries({
+        'P': st.sampled_from(['list', 'list', 'tuple', 'ndarray', 'int', 'scalar-z', 'yz']),
+        'R': st.sampled_from(['tuple', 'tuple', 'list', 'matrix']),
+        'typ': st.sampled_from(['short', 'short', 'long', 'upper', 'int']),
+        'n': st.sampled_from(['none', 'none', 'omit', 'callable']),
+        'kw': st.booleans(), 'reassign': st.sampled_from([False, False, False, True])})
+
+
+def _fit_P(s):
+    """make the position agree with the form it is to be given in (bare z: on the axis; [y, z]: x = 0; ints: whole numbers)"""
+    f = (s.get('ctor') or {}).get('P')
+    if f in ('scalar-z', 'yz', 'int'):
+        s = dict(s)
+        P = list(s['P'])
+        if f == 'scalar-z':
+            P[0] = P[1] = 0.0
+        elif f == 'yz':
+            P[0] = 0.0
+        else:
+            P = [float(round(v)) for v in P]
+        s['P'] = P
+    return s
+
+
+def surface_s(kinds, maxtilt, zpos, types=('refl', 'refr')):
     def mk(kind):
-        d = {'kind': st.just(kind), 'typ': st.sampled_from(['refl', 'refr']), 'n': _i(1000, 1900, 1000),
-             'P': st.tuples(_i(-50, 50, 10), _i(-50, 50, 10), zpos).map(list), 'R': tilt_s(maxtilt)}
+        d = {'kind': st.just(kind), 'typ': st.sampled_from(list(types)), 'n': _i(1000, 1900, 1000),
+             'P': st.tuples(_i(-50, 50, 10), _i(-50, 50, 10), zpos).map(list), 'R': tilt_s(maxtilt), 'ctor': ctor_s()}
         if kind != 'plane':
-            d['c'] = st.one_of(_i(-50, 50, 1000), st.sampled_from([0.05, -0.05, 0.02, -0.0125]))
+            # gentle curvatures, and the far ends: nearly flat, and radii of curvature of 2, 0.5, 0.1 (the ray bundle scales with it)
+            d['c'] = st.one_of(_i(-50, 50, 1000), _i(-50, 50, 1000), st.sampled_from([0.05, -0.05, 0.02, -0.0125]),
+                               st.sampled_from([1e-6, -1e-4, 0.5, -2.0, 10.0, 0.0]))
         if kind in ('conic', 'offaxis', 'qsym', 'q2d'):
-            d['k'] = st.one_of(_i(-300, 100, 100), st.sampled_from([-1.0, 0.0, 1.0, -0.5]))
+            d['k'] = st.one_of(_i(-300, 100, 100), st.sampled_from([-1.0, 0.0, 1.0, -0.5, -1.0, 0.0]))
+        off_s = st.tuples(st.sampled_from(['x', 'y']), st.integers(-100, 100).filter(lambda v: v != 0).map(lambda v: v / 100)).map(list)
         if kind == 'offaxis':
-            d['off'] = st.tuples(st.sampled_from(['x', 'y']), st.integers(-100, 100).filter(lambda v: v != 0).map(lambda v: v / 100)).map(list)
+            d['off'] = off_s
         if kind in ('qsym', 'q2d'):
             d['q'] = q_s(kind == 'qsym')
-        return st.fixed_dictionaries(d)
+            # the base conic on its axis, or shifted through the dx / dy arguments of Q2d_and_der
+            d['qoff'] = st.one_of(st.none(), off_s, off_s)
+        return st.fixed_dictionaries(d).map(_fit_P)
     return st.sampled_from(kinds).flatmap(mk)
 
 
@@ -563,9 +835,41 @@ def strat_single(tier):
         'rays': st.lists(ray_s(), min_size=0, max_size=5),
         'nrand': st.one_of(st.just(0), st.integers(0, nmax)), 'seed': U.seeds,
         'dirz': st.sampled_from([1, 1, -1]), 'd': st.one_of(_i(10, 500, 10), _i(10, 500, 10), _i(10, 500, 10), st.sampled_from([1e7, 1e10, 1e99])),
-        'warmup': st.booleans(),
+        'warmup': st.booleans(), 'retrace': st.sampled_from([False, False, True]), 'pform': st.sampled_from(RAY_FORMS),
         'form': st.sampled_from(['batch', 'batch', 'batch', 'single1d']),
     }).filter(lambda c: len(c['rays']) + c['nrand'] >= 1)
+
+
+def strat_argtypes(tier):
+    """rays written the way the raytrace docstring writes them - P = [Px, Py, -10], S = [0, 0, 1]: whole-number origins around
+    the first surface, direction along the z axis - handed over as lists of Python ints, integer arrays, float lists, float32
+    arrays and mixtures; one or two surfaces, decentred and tilted so that the hit points and directions are not whole numbers"""
+    kinds = ['plane', 'sphere', 'conic', 'conic', 'offaxis']
+
+    def assemble(t):
+        surfs, gap, case = t
+        case = dict(case)
+        if len(surfs) == 2:
+            s0, s1 = dict(surfs[0]), dict(surfs[1])
+            direction = case['dirz']
+            s1['P'] = [s1['P'][0] / 10.0, s1['P'][1] / 10.0, s0['P'][2] + (direction if s0['typ'] != 'refl' else -direction) * gap]
+            s1 = _fit_P(s1)
+            for s_ in (s0, s1):
+                if 'c' in s_ and abs(s_['c']) <= 0.05:
+                    s_['c'] = s_['c'] / 2.0
+            surfs = [s0, s1]
+        case['surfaces'] = list(surfs)
+        return case
+    xy = st.integers(-8, 8)
+    base = st.fixed_dictionaries({
+        'n_ambient': st.one_of(st.just(1.0), _i(1000, 1900, 1000)),
+        'irays': st.lists(st.tuples(xy, xy).map(list), min_size=1, max_size=12),
+        'rays': st.just([]), 'nrand': st.just(0), 'seed': st.just(0),
+        'dirz': st.sampled_from([1, 1, -1]), 'd': st.integers(1, 40),
+        'warmup': st.booleans(), 'retrace': st.sampled_from([False, False, True]), 'pform': st.sampled_from(INT_RAY_FORMS),
+        'form': st.sampled_from(['batch', 'batch', 'single1d'])})
+    return st.integers(1, 2).flatmap(lambda n: st.tuples(
+        st.lists(surface_s(kinds, 12, _i(-200, 200, 10), types=('refl', 'refr', 'refr')), min_size=n, max_size=n), _i(50, 300, 10), base)).map(assemble)
 
 
 def strat_prescription(tier):
@@ -583,8 +887,8 @@ def strat_prescription(tier):
             s['P'] = [s['P'][0] / 10.0, s['P'][1] / 10.0, z]     # decentres <= 0.5
             # gentle powers so that the bundle stays inside the later apertures
             if 'c' in s:
-                s['c'] = s['c'] / 2.0
-            out.append(s)
+                s['c'] = s['c'] / 2.0 if abs(s['c']) <= 0.05 else 0.01 * (1 if s['c'] > 0 else -1)
+            out.append(_fit_P(s))
             if s['typ'] == 'refl':
                 direction = -direction
         case = dict(case)
@@ -595,9 +899,10 @@ def strat_prescription(tier):
         'rays': st.lists(ray_s().map(lambda r: [r[0], r[1] // 2, r[2], r[3] // 3, r[4]]), min_size=0, max_size=4),
         'nrand': st.integers(0, 24), 'seed': U.seeds, 'dirz': st.sampled_from([1, 1, -1]),
         'd': st.one_of(_i(10, 300, 10), _i(10, 300, 10), _i(10, 300, 10), st.sampled_from([1e7, 1e10])), 'warmup': st.booleans(),
+        'retrace': st.sampled_from([False, False, False, True]), 'pform': st.sampled_from(RAY_FORMS),
         'form': st.sampled_from(['batch', 'batch', 'batch', 'single1d'])})
     return st.integers(2, 3).flatmap(lambda n: st.tuples(
-        st.lists(surface_s(kinds, 5, _i(-200, 200, 10)), min_size=n, max_size=n),
+        st.lists(surface_s(kinds, 5, _i(-200, 200, 10), types=('refl', 'refr', 'refl', 'refr', 'eval')), min_size=n, max_size=n),
         st.lists(_i(50, 300, 10), min_size=n - 1, max_size=n - 1), base)).map(assemble).filter(
             lambda c: len(c['rays']) + c['nrand'] >= 1)
 
@@ -610,7 +915,29 @@ def strat_laws(tier):
         'scale': st.sampled_from([1.0, 1.0, 0.25, 3.0, 17.5, 1e-3]),        # length of the normal handed in
         'sense': st.sampled_from(['along', 'against', 'mixed']),
         'incidence': st.sampled_from(['normal', 'small', 'any']),
-        'form': st.sampled_from(['batch', 'batch', 'single1d'])})
+        'form': st.sampled_from(['batch', 'batch', 'single1d']),
+        # how S and r are handed over: float64 arrays (C / Fortran / strided), lists, float32 arrays, and a normal along a
+        # coordinate axis written with whole numbers ([0, 0, 1], [0, -2, 0] ...) as an integer list / array
+        'aform': st.sampled_from(['f64', 'f64', 'F', 'strided', 'list', 'f32', 'int-axis-list', 'int-axis-array'])})
+
+
+def law_args(S, rin, form, single):
+    def one(A, f):
+        if single:
+            A = A[0]
+        if f == 'f32':
+            return A.astype(np.float32)
+        if f in ('F', 'strided'):
+            return U.relayout(A, f)
+        if f == 'list':
+            return A.tolist()
+        if f == 'ilist':
+            return np.rint(A).astype(np.int64).tolist()
+        if f == 'iarray':
+            return np.rint(A).astype(np.int64)
+        return A.copy()
+    fS, fr = {'int-axis-list': ('f64', 'ilist'), 'int-axis-array': ('list', 'iarray')}.get(form, (form, form))
+    return one(S, fS), one(rin, fr)
 
 
 def check_laws(case, ctx):
@@ -619,6 +946,13 @@ def check_laws(case, ctx):
     n = case['n']
     r = U.rng_of(case['seed'], 191)
     nrm = unit(r.normal(size=(n, 3)))
+    aform = case.get('aform', 'f64')
+    intaxis = aform.startswith('int-axis')
+    if intaxis:
+        # unit vectors along +-x, +-y, +-z
+        ax = r.integers(0, 3, n)
+        nrm = np.zeros((n, 3))
+        nrm[np.arange(n), ax] = np.where(r.uniform(size=n) < 0.5, -1.0, 1.0)
     n0 = float(case['n0'])
     n1 = {'n<n\'': n0 * case['ratio'], 'n>n\'': n0 / case['ratio'], 'equal': n0}[case['mu']]
     mu = n0 / n1
@@ -638,25 +972,37 @@ def check_laws(case, ctx):
     S = unit(S)
     sense = {'along': np.ones(n), 'against': -np.ones(n), 'mixed': np.where(r.uniform(size=n) < 0.5, -1.0, 1.0)}[case['sense']]
     lens = case['scale'] * (1 + r.uniform(0, 1, n) * (case['scale'] != 1.0))
+    if intaxis:
+        lens = np.maximum(1.0, np.rint(lens))       # whole-number lengths 1, 2, 3 ...
     rin = nrm * (sense * lens)[:, None]
     single = case['form'] == 'single1d'
     if single:
         S, rin, nrm, inc = S[:1], rin[:1], nrm[:1], inc[:1]
+    f32 = aform == 'f32'
+    if f32:
+        S, rin = S.astype(np.float32).astype(np.float64), rin.astype(np.float32).astype(np.float64)
+        nrm = unit(rin) * np.sign(dot(rin, nrm))[:, None]
+    ltol, utol = (2e-5, 1e-5) if f32 else (LAW_TOL, UNIT_TOL * 10)
+    ctx.label('args-as:' + aform)
     ctx.label('mu:' + case['mu'], 'sense:' + case['sense'], 'unit-normal' if case['scale'] == 1.0 else 'scaled-normal',
               'inc:' + case['incidence'], 'form:' + case['form'])
     ctx.nt(case['incidence'] != 'normal')
     ci = dot(S, nrm)
     # reflection
-    a = (S[0].copy(), rin[0].copy()) if single else (S.copy(), rin.copy())
-    out = np.atleast_2d(np.asarray(ctx.call(sm.reflect, *a)))
+    a = law_args(S, rin, aform, single)
+    kept = _copy_arg(a)
+    out = np.atleast_2d(np.asarray(ctx.call(sm.reflect, *a))).astype(np.float64)
+    ctx.require(_same_arg(kept, a), 'reflect:argument-modified', 'reflect changed the S / r it was given')
     U.check_shape(out, S.shape, 'reflect')
     want = S - 2 * ci[:, None] * nrm
     err = np.abs(out - want).max(axis=1)
     i = int(np.argmax(np.where(np.isfinite(err), err, np.inf)))
-    ctx.require(err[i] <= LAW_TOL, 'reflect:law', 'reflect(S=%s, r=%s) = %s, expected %s' % (_fmt(S[i]), _fmt(rin[i]), _fmt(out[i]), _fmt(want[i])))
+    ctx.require(err[i] <= ltol, 'reflect:law', 'reflect(S=%s, r=%s) = %s, expected %s' % (_fmt(S[i]), _fmt(rin[i]), _fmt(out[i]), _fmt(want[i])))
     # refraction
-    a = (S[0].copy(), rin[0].copy()) if single else (S.copy(), rin.copy())
-    out = np.atleast_2d(np.asarray(ctx.call(sm.refract, n0, n1, *a)))
+    a = law_args(S, rin, aform, single)
+    kept = _copy_arg(a)
+    out = np.atleast_2d(np.asarray(ctx.call(sm.refract, n0, n1, *a))).astype(np.float64)
+    ctx.require(_same_arg(kept, a), 'refract:argument-modified', 'refract changed the S / r it was given')
     U.check_shape(out, S.shape, 'refract')
     ctx.require(np.isfinite(out).all(), 'refract:nan', 'refract(n=%g, n\'=%g) not finite below the critical angle: S=%s r=%s -> %s' % (
         n0, n1, _fmt(S[0]), _fmt(rin[0]), _fmt(out[0])))
@@ -670,14 +1016,14 @@ def check_laws(case, ctx):
                      n0, n1, _fmt(S[i]), _fmt(rin[i]), _fmt(out[i]), _fmt(want[i])))
     norm = np.linalg.norm(out, axis=1)
     i = int(np.argmax(np.abs(norm - 1)))
-    ctx.require(abs(norm[i] - 1) <= UNIT_TOL * 10, 'refract:not-unit',
+    ctx.require(abs(norm[i] - 1) <= utol, 'refract:not-unit',
                 'refract(n=%g, n\'=%g, S=%s, r=%s) has length %.15g; |r| = %.6g' % (n0, n1, _fmt(S[i]), _fmt(rin[i]), norm[i], np.linalg.norm(rin[i])))
     err = np.abs(out - want).max(axis=1)
     i = int(np.argmax(err))
-    ctx.require(err[i] <= LAW_TOL, 'refract:snell', 'refract(n=%g, n\'=%g, S=%s, r=%s) = %s, vector Snell law gives %s (err %.3g)' % (
+    ctx.require(err[i] <= ltol, 'refract:snell', 'refract(n=%g, n\'=%g, S=%s, r=%s) = %s, vector Snell law gives %s (err %.3g)' % (
         n0, n1, _fmt(S[i]), _fmt(rin[i]), _fmt(out[i]), _fmt(want[i]), err[i]))
     si, so = np.linalg.norm(np.cross(S, nrm), axis=1), np.linalg.norm(np.cross(out / norm[:, None], nrm), axis=1)
-    U.check_close(n1 * so, n0 * si, 0, 'refract:snell', 'n sin i = n\' sin i\'', atol=LAW_TOL * max(n0, n1))
+    U.check_close(n1 * so, n0 * si, 0, 'refract:snell', 'n sin i = n\' sin i\'', atol=ltol * max(n0, n1))
 
 
 # ---- frame transforms ----------------------------------------------------------------------------------------------
@@ -687,7 +1033,9 @@ def strat_frames(tier):
         'n': st.integers(1, 32), 'seed': U.seeds,
         'P': st.tuples(_i(-1000, 1000, 10), _i(-1000, 1000, 10), _i(-1000, 1000, 10)).map(list),
         'R': st.one_of(st.none(), st.tuples(ang, ang, ang).map(list), st.tuples(ang).map(list), st.tuples(ang, ang).map(list)),
-        'form': st.sampled_from(['batch', 'single1d']), 'scale': st.sampled_from([1.0, 30.0, 1e3])})
+        'form': st.sampled_from(['batch', 'single1d']), 'scale': st.sampled_from([1.0, 30.0, 1e3]),
+        # the frame origin as float array / list / whole numbers written as ints; coordinates C / Fortran ordered / strided
+        'pform': st.sampled_from(['array', 'array', 'list', 'int-list', 'int-array']), 'layout': U.layouts})
 
 
 def check_frames(case, ctx):
@@ -699,8 +1047,15 @@ def check_frames(case, ctx):
     X = r.normal(size=(n, 3)) * case['scale']
     S = unit(r.normal(size=(n, 3)))
     P = np.asarray(case['P'], dtype=float)
+    pform = case.get('pform', 'array')
+    if pform.startswith('int'):
+        P = np.rint(P)
+
+    def Parg():
+        return P.copy() if pform == 'array' else P.tolist() if pform == 'list' else [int(v) for v in P] if pform == 'int-list' else P.astype(np.int64)
+    lay = case.get('layout', 'C')
     single = case['form'] == 'single1d'
-    ctx.label('R:' + ('none' if case['R'] is None else '%d-angle' % len(case['R'])), 'form:' + case['form'])
+    ctx.label('R:' + ('none' if case['R'] is None else '%d-angle' % len(case['R'])), 'form:' + case['form'], 'P-as:' + pform, 'layout:' + lay)
     ctx.nt(case['R'] is not None)
     R = None
     if case['R'] is not None:
@@ -714,8 +1069,11 @@ def check_frames(case, ctx):
             U.check_equal(R[2], np.array([0, 0, 1.0]), 'rotation:z-only', 'third row of a z-only rotation')
             U.check_equal(R[:, 2], np.array([0, 0, 1.0]), 'rotation:z-only', 'third column of a z-only rotation')
     L = max(1.0, float(np.abs(X).max()), float(np.abs(P).max()))
-    a = (X[0].copy(), P.copy(), S[0].copy()) if single else (X.copy(), P.copy(), S.copy())
+    a = (X[0].copy(), Parg(), S[0].copy()) if single else (U.relayout(X, lay), Parg(), U.relayout(S, lay))
+    kept = _copy_arg(a)
+    Rk = None if R is None else R.copy()
     Xl, Sl = ctx.call(sm.transform_to_local_coords, *a, R)
+    ctx.require(_same_arg(kept, a) and (R is None or np.array_equal(R, Rk)), 'to_local:argument-modified', 'transform_to_local_coords changed one of XYZ / P / S / R')
     Xl = np.atleast_2d(np.asarray(Xl))
     Sl = np.atleast_2d(np.asarray(Sl))
     m = 1 if single else n
@@ -741,8 +1099,12 @@ def check_frames(case, ctx):
         U.check_equal(Sl, Sr, 'to_local:formula', 'S unchanged without rotation')
     # and back, the way raytrace() does it (R^T)
     Rt = None if R is None else R.T
-    b = (Xl[0].copy(), P.copy(), Sl[0].copy()) if single else (Xl.copy(), P.copy(), Sl.copy())
+    b = (Xl[0].copy(), Parg(), Sl[0].copy()) if single else (U.relayout(Xl, lay), Parg(), U.relayout(Sl, lay))
+    kept = _copy_arg(b)
+    Xl_kept = Xl.copy()
     Xg, Sg = ctx.call(sm.transform_to_global_coords, *b, Rt)
+    ctx.require(_same_arg(kept, b), 'to_global:argument-modified', 'transform_to_global_coords changed one of XYZ / P / S')
+    ctx.require(np.array_equal(Xl, Xl_kept), 'to_local:result-overwritten', 'the local coordinates returned before changed during transform_to_global_coords')
     Xg = np.atleast_2d(np.asarray(Xg))
     Sg = np.atleast_2d(np.asarray(Sg))
     U.check_shape(Xg, (m, 3), 'to_global')
@@ -753,6 +1115,7 @@ def check_frames(case, ctx):
 CLAUSES = [
     HypClause('trace_single', strat_single, check_trace, examples={'quick': 700, 'thorough': 4000}, shards={'quick': 4, 'thorough': 12}),
     HypClause('trace_prescription', strat_prescription, check_trace, examples={'quick': 400, 'thorough': 2500}, shards={'quick': 3, 'thorough': 10}),
+    HypClause('trace_argtypes', strat_argtypes, check_trace, examples={'quick': 350, 'thorough': 2500}, shards={'quick': 2, 'thorough': 8}),
     HypClause('laws_direct', strat_laws, check_laws, examples={'quick': 600, 'thorough': 4000}, shards={'quick': 1, 'thorough': 4}),
     HypClause('frames', strat_frames, check_frames, examples={'quick': 500, 'thorough': 4000}, shards={'quick': 1, 'thorough': 4}),
 ]
